@@ -315,4 +315,62 @@ example : (barStep defaultTuning 5 (List.replicate 6 []) ⟨4, some [nt "C" 3, n
 example : (barStep defaultTuning 5 (List.replicate 6 []) ⟨4, none⟩).map (·.map readCell) =
     .ok [none, none, none, none, none, none] := by decide +kernel
 
+/-! ### from_NoteContainer: one column, the fret numbers centred -/
+
+theorem filter_digit_centred (fret : Str) (w : Int) : (centred fret w).filter Char.isDigit = fret.filter Char.isDigit := by
+  unfold centred
+  simp only [List.filter_append, filter_digit_rep_dash, List.nil_append, List.append_nil]
+  have : (lit "|").filter Char.isDigit = [] := by decide
+  rw [this, List.append_nil]
+
+/-- **from_NoteContainer decodes**: the lines of the rendering (highest string first) are, for string `i` counted from the
+    lowest, the label columns followed by ONE cell, and reading the cell gives fret `fr` exactly when the fingering used -
+    the first one `find_fingering` returns, an assignment of distinct strings each sounding its note, within span 4 - assigns
+    `(i, fr)`; no fingering at all raises the fingering error -/
+theorem fromNC_decode (t : Tuning) (notes : NC) (width : Int) (ls : List Line) (h : fromNC t notes width = .ok ls) :
+    ∃ (start : List Line) (f : Fingering) (cells : Nat → Line),
+      ls.reverse = appendSegs start cells ∧ Assigns t notes [] f ∧ spanOk f 4 = true ∧
+      ∀ s fr, readCell (cells s) = some fr ↔ (s, fr) ∈ f := by
+  unfold fromNC at h
+  simp only [bind, Except.bind] at h
+  split at h
+  · cases h
+  · rename_i start hstart
+    split at h
+    · cases h
+    · rename_i fs hfs
+      split at h
+      · cases h
+      · rename_i f rest
+        simp only [pure, Except.pure, Except.ok.injEq] at h
+        subst h
+        have hmem := (mem_findFingering t notes 4 (f :: rest) hfs f).1 (by simp)
+        have hnn := assigns_nonneg t notes [] f hmem.1
+        obtain ⟨hd, _, _⟩ := strings_distinct t notes [] f hmem.1
+        let w : Int := max 4 ((width - ((start.headD []).length : Int)) - 1)
+        let cells : Nat → Line := fun i =>
+          match (f.reverse.find? (·.1 == i)) with
+          | none => rep '-' w ++ lit "|"
+          | some p => centred (Note.showInt p.2) w
+        refine ⟨start, f, cells, ?_, hmem.1, hmem.2, ?_⟩
+        · simp only [List.reverse_reverse]
+          unfold appendSegs
+          rw [← zip_range_map]
+          apply List.map_congr_left
+          intro p _
+          simp only [cells]
+          cases f.reverse.find? (·.1 == p.1) <;> simp [w, List.append_assoc]
+        · intro s fr
+          rw [← lookup_iff f hd s fr]
+          simp only [cells, lookup, readCell]
+          cases hfind : f.reverse.find? (·.1 == s) with
+          | none =>
+            have : ((rep '-' w ++ lit "|").filter Char.isDigit) = [] := by
+              rw [List.filter_append, filter_digit_rep_dash]; decide
+            simp [this]
+          | some p =>
+            have hp : p ∈ f := by simpa using List.mem_of_find?_eq_some hfind
+            obtain ⟨h1, h2, h3⟩ := showInt_digits p.2 (hnn p hp)
+            simp only [filter_digit_centred, h1, h2, if_false, h3, Option.map_some]
+
 end Mingus.Props.C20
